@@ -190,7 +190,7 @@ func (cs *crashSim) evalImage(im image, where string, class string, durable, exe
 		}
 		match := -1
 		for p := executed; p >= 0; p-- {
-			if p < len(cs.states) && tree.Equal(cs.states[p]) {
+			if p < len(cs.states) && storeEqual(tree, cs.states[p]) {
 				match = p
 				break
 			}
@@ -200,7 +200,7 @@ func (cs *crashSim) evalImage(im image, where string, class string, durable, exe
 			cs.fail(class+"/mixture", fmt.Sprintf("crash %s (%s): reopened content equals no prefix of the %d executed batches (durable prefix %d): vs durable state: %s", where, class, executed, durable, tree.Diff(ref, "img")))
 			return
 		}
-		if match < durable && !tree.Equal(cs.states[durable]) {
+		if match < durable && !storeEqual(tree, cs.states[durable]) {
 			cs.fail(class+"/lost-durable", fmt.Sprintf("crash %s (%s): reopened content is the state after %d batches, but a synced round had covered %d", where, class, match, durable))
 			return
 		}
